@@ -1168,6 +1168,13 @@ func (l *Ledger) VerifyBlock(block *pb.InternalBlock, logid string) (bool, error
 		l.xlog.Warn("VerifyMerkle error", "logid", logid, "error", errv)
 		return false, nil
 	}
+	// the hashed tx count must describe the body: the merkle root alone does not
+	// distinguish [a,b,c] from [a,b,c,c]
+	if int(block.TxCount) != len(block.Transactions) {
+		l.xlog.Warn("VerifyBlock tx count error", "logid", logid, "txCount", block.TxCount,
+			"txs", len(block.Transactions))
+		return false, nil
+	}
 
 	k, err := l.cryptoClient.GetEcdsaPublicKeyFromJsonStr(string(block.Pubkey))
 	if err != nil {
